@@ -446,13 +446,16 @@ class SqlalchemyRender:
                         else:
                             condition = self.to_expression(item['condition'])
 
-                        join_type = item['join_type']
+                        join_type = ' '.join(item['join_type'].upper().split())
                         method = 'join'
                         is_full = False
-                        if join_type == 'LEFT JOIN':
+                        if join_type in ('LEFT JOIN', 'LEFT OUTER JOIN'):
                             method = 'outerjoin'
-                        if join_type == 'FULL JOIN':
+                        elif join_type in ('FULL JOIN', 'FULL OUTER JOIN'):
                             is_full = True
+                        elif join_type not in ('JOIN', 'INNER JOIN', 'CROSS JOIN'):
+                            # RIGHT JOIN (no sqlalchemy support), bare OUTER JOIN: don't silently render an inner join
+                            raise NotImplementedError(f'Join type: {join_type}')
 
                         # perform join
                         query = getattr(query, method)(
